@@ -387,7 +387,15 @@ def _callback_rule(repo, L, cb, finder):
             while isinstance(c, ast.UnaryOp) and isinstance(c.op, ast.Not):
                 c, neg = c.operand, not neg
             if isinstance(c, ast.Call) and isinstance(c.func, ast.Attribute) and c.func.attr == "overlaps":
-                refs = {n.id for n in ast.walk(c) if isinstance(n, ast.Name)}
+                # locals that merely name (a component of) a callback argument are followed
+                from ..util import local_defs as _ld
+
+                refs = set()
+                for n in ast.walk(c):
+                    if isinstance(n, ast.Name):
+                        refs.add(n.id)
+                        for d_ in _ld(cb, n.id):
+                            refs |= {x.id for x in ast.walk(d_) if isinstance(x, ast.Name)}
                 if set(cp[:2]) <= refs:
                     pred_true = (val != neg)
                 else:
